@@ -10,7 +10,7 @@ def lanesToMask (ls : List Nat) : Nat := ls.foldl (fun c l => c ||| (1 <<< l)) 0
 /-- mask array encoded as a number: bit `i` set ↔ `maska[i] == -1` -/
 def arrayOfBits (V bits : Nat) : List Int := (List.range V).map fun i => if bits.testBit i then -1 else 0
 
-def parseInts (s : String) : List Int := (s.splitOn ",").filterMap String.toInt?
+private def parseInts (s : String) : List Int := (s.splitOn ",").filterMap String.toInt?
 def parseNats (s : String) : List Nat := (s.splitOn ",").filterMap String.toNat?
 
 def runPfoot (kv : List (String × String)) : String := Id.run do
